@@ -141,6 +141,15 @@ func TestC19(t *testing.T) {
 		if err := signature.SignSteps(ctx, ptwin.Steps, signer, "repo", signature.WithEnv(map[string]string{"P": "v"})); err != nil {
 			t.Fatal(err)
 		}
+		// signed_fields in an order Sign does not produce (still a valid signature)
+		for _, pp := range []*pipeline.Pipeline{p, ptwin} {
+			for _, cs := range commandSteps(pp.Steps) {
+				f := cs.Signature.SignedFields
+				for i, j := 0, len(f)-1; i < j; i, j = i+1, j-1 {
+					f[i], f[j] = f[j], f[i]
+				}
+			}
+		}
 		wantKeys := collect(m)
 		wantJSON, _ := json.Marshal(m)
 		wantP, _ := json.Marshal(p)
